@@ -136,14 +136,16 @@ Section ExtLazy.
 
   Theorem lexec_file_extends fuel ms : lext_ok (lexec_file t fl cfg glob regexes find call fuel ms).
   Proof.
-    apply (Phi_lexec_file t fl cfg glob regexes find call (@lext_ok)).
+    apply (Phi_lexec_file t fl cfg glob regexes find call (@lext_ok)) with (good_ctx := fun _ => True).
     - exact lext_ret.
     - exact lext_bind.
     - intros A e _. apply lext_noresult. intros s p a s' p'. discriminate.
-    - intros A c e _. apply lext_noresult. intros s p a s' p'. discriminate.
+    - intros A c1 c2 e _. apply lext_noresult. intros s p a s' p'. discriminate.
     - intros A x. apply lext_noresult. intros s p a s' p'. discriminate.
     - intros A. apply lext_noresult. intros s p a s' p'. discriminate.
-    - exact lext_ctx.
+    - exact I.
+    - intros; exact I.
+    - intros A c m _. apply lext_ctx.
     - apply lext_same_graph. intros s p a s' p' H. apply get_ok in H as (_ & -> & _). reflexivity.
     - intros l. unfold set_llocals. same.
     - intros l. unfold set_lstore. same.
